@@ -194,9 +194,11 @@ def gen_ops(rng, init, n, alphabet, interior_removal=True):
         elif kind == "populate":
             op.update(stop=rng.choice([None, None, None, "break", "raise"]), at=rng.randint(0, 3))
         elif kind in ("iterref", "coiterref"):
-            op.update(mode=rng.choice(["iterShapeRef", "iterActiveShapeRef", "iterRangeShapeRef"]), s=rng.randint(0, 3),
-                      e=rng.randint(0, 7), step=rng.choice([1, 1, 2]), stop=rng.choice([None, None, 1, 3]),
+            op.update(mode=rng.choice(["iterShapeRef", "iterActiveShapeRef", "iterRangeShapeRef", "iterRangeShapeRef"]), s=rng.randint(0, 3),
+                      e=rng.randint(0, 7), step=rng.choice([1, 1, 2, -1, -2]), stop=rng.choice([None, None, 1, 3]),
                       path2=[rng.randrange(8) for _ in range(len(path))])
+            if op["step"] < 0:      # a descending range
+                op["s"], op["e"] = max(op["s"], op["e"]) + 1, min(op["s"], op["e"]) - 1
         elif kind == "updateCoords":
             op.update(fn=rng.choice(["shift", "double", "reverse", "neg"]), depth=rng.randint(0, max(0, depth - 1)))
         elif kind == "updatePayloads":
